@@ -428,6 +428,26 @@ func runCase(c tcase) (res result) {
 	if err != nil {
 		panic(err)
 	}
+	// sentinel: an always-ready streamer subscribed to the probe channels only, connected
+	// first, so that every barrier waits for the relay to have dequeued the probe (and
+	// hence to have finished with every earlier frame) even when no scripted streamer is
+	// connected and ready.
+	{
+		st, err := db.NewStreamer(ctx, cesium.StreamerConfig{Channels: toKeys(nil, 0)})
+		if err != nil {
+			panic(err)
+		}
+		in := confluence.NewStream[cesium.StreamerRequest](1)
+		out := confluence.NewStream[cesium.StreamerResponse](1)
+		st.InFrom(in)
+		st.OutTo(out)
+		sctx, cancel := signal.Isolated()
+		st.Flow(sctx, confluence.CloseOutputInletsOnExit())
+		s := &sstate{id: -1, in: in, out: out, cancel: cancel, connected: true, items: []item{}}
+		cs.strs[-1] = s
+		cs.order = append(cs.order, -1)
+		go cs.consume(s)
+	}
 	hung := false
 	run := func(kind string, f func() opRes) opRes {
 		var r opRes
@@ -641,7 +661,9 @@ func runCase(c tcase) (res result) {
 		ids := append([]int{}, cs.order...)
 		sort.Ints(ids)
 		for _, id := range ids {
-			tear = append(tear, opT{Op: "resume", S: id})
+			if id >= 0 {
+				tear = append(tear, opT{Op: "resume", S: id})
+			}
 		}
 		tear = append(tear, opT{Op: "sync"})
 		for j, o := range tear {
@@ -671,6 +693,9 @@ func runCase(c tcase) (res result) {
 	cs.mu.Lock()
 	for _, id := range cs.order {
 		s := cs.strs[id]
+		if id < 0 {
+			continue
+		}
 		res.Streams = append(res.Streams, streamRes{S: id, Items: append([]item{}, s.items...)})
 	}
 	if cs.anomaly != "" {
